@@ -200,6 +200,7 @@ class Repo:
 
     def __init__(self, root=REPO):
         self.root = root
+        self.executed = set()
         self.modules = {}  # modname -> dict(tree, real, funcs, classes, src)
         if root not in sys.path:
             sys.path.insert(0, root)
@@ -277,6 +278,15 @@ class Repo:
                     self.load(mod)
                     break
         return self.funcs.get(qual)
+
+    def executed_hash(self):
+        """hash over the source of every /repo function whose body was executed since the repo view was created (target, inlined callees)"""
+        parts = []
+        for q in sorted(self.executed):
+            h = self.source_hash(q) if q in self.funcs else None
+            if h:
+                parts.append(f"{q}:{h}")
+        return hashlib.sha256("|".join(parts).encode()).hexdigest()[:16]
 
     def source_hash(self, qual):
         f = self.func(qual)
@@ -1204,6 +1214,7 @@ class Interp:
 
     def run_function(self, fnode, qual, module, args, kw, parent, is_gen, selfobj=None, cls=None, ctxmgr=False, yield_hook=None):
         env = self.bind(fnode, qual, module, args, kw, parent)
+        self.repo.executed.add(qual)
         fr = Frame(module, parent, qual)
         fr.vars.update(env)
         fr.selfobj, fr.cls = selfobj, cls
